@@ -374,6 +374,47 @@ def gen_ops(rng, isa, nk, tier, faults=True):
     return ops
 
 
+def template_histories(rng, nk):
+    """The cache histories the property's quantifier lists, spelled out (then varied by kernel,
+    options, racing group sizes and schedule): cold, cold->warm, warm companion, warm home cache
+    (data dir read-only), pre-existing cache shipped in the package dir, model edited after caching
+    (companion and home), cache written for another file with the same name (user-dir shadow),
+    old-format cache, long-lived process across an edit."""
+    def run(n=1, **kw):
+        return {"op": "run_group", "procs": [dict({"kernel": rng.randrange(nk), "options": rng.choice(OPTION_SETS)}, **kw) for _ in range(n)]}
+    ro = {"op": "set_writable", "value": False}
+    rw = {"op": "set_writable", "value": True}
+    sem = {"op": "edit_model", "kind": "semantic"}
+    com = {"op": "edit_model", "kind": "comment"}
+    T = {
+        "cold_warm_warm": [run(), run(), run(2)],
+        "racing_cold_then_warm": [run(rng.choice([2, 3, 4])), run()],
+        "home_cache_readonly_dir": [ro, run(), run(), sem, run(), run()],
+        "home_cache_then_writable": [ro, run(), rw, run(), sem, ro, run(), run()],
+        "shipped_cache_in_pkg_dir": [{"op": "plant", "which": "model", "where": "companion", "kind": "valid"},
+                                     {"op": "plant", "which": "isa", "where": "companion", "kind": "valid"}, ro, run(), sem, run(), run()],
+        "edit_after_companion_cache": [run(), sem, run(), com, run(), sem, run()],
+        "edit_back_and_forth_home": [ro, run(), sem, run(), {"op": "wipe", "where": "companion"}, run()],
+        "shadow_same_name_other_content": [run(), {"op": "shadow", "on": True}, run(), run(), {"op": "shadow", "on": False}, run()],
+        "shadow_with_home_cache": [ro, run(), {"op": "shadow", "on": True}, run(), {"op": "shadow", "on": False}, run(), run()],
+        "old_format_cache_both_places": [{"op": "plant", "which": "model", "where": "companion", "kind": "foreign_version"},
+                                         {"op": "plant", "which": "model", "where": "home", "kind": "foreign_version"},
+                                         {"op": "plant", "which": "isa", "where": "home", "kind": "foreign_version"}, run(), ro, run()],
+        "truncated_everywhere": [{"op": "plant", "which": "model", "where": "companion", "kind": rng.choice(["cut_zero", "cut_header", "cut_mid", "cut_lastbyte"])},
+                                 {"op": "plant", "which": "isa", "where": "home", "kind": rng.choice(["cut_zero", "cut_header", "cut_mid", "cut_lastbyte"])},
+                                 run(2), run()],
+        "long_lived_across_edits": [{"op": "long_lived", "analyses": [
+            {"kernel": rng.randrange(nk), "options": []}, {"kernel": rng.randrange(nk), "options": [], "edit_before": "semantic"},
+            {"kernel": rng.randrange(nk), "options": ["--fixed"], "edit_before": "comment"},
+            {"kernel": rng.randrange(nk), "options": [], "edit_before": "semantic"}]}, run()],
+        "long_lived_home_cache": [ro, run(), {"op": "long_lived", "analyses": [
+            {"kernel": rng.randrange(nk), "options": []}, {"kernel": rng.randrange(nk), "options": [], "edit_before": "semantic"},
+            {"kernel": rng.randrange(nk), "options": []}]}, run()],
+        "crash_then_machine_crash": [run(2, fault={"kind": "crash", "at": rng.choice([1, 2, 3, 5, 8])}), {"op": "machine_crash"}, run(), run()],
+    }
+    return T
+
+
 class Episode:
     def __init__(self, spec, chooser):
         self.spec, self.ch = spec, chooser
@@ -479,24 +520,54 @@ class Episode:
         return records, expectations, tasks
 
     def probe_states(self, sim, fs, plan):
-        readers_partial = 0
         open_w = {}
+        per_task = {}
         for e in sim.log:
             if len(e) > 3 and e[2] == "y" and e[3].startswith("fs:"):
                 _, op, rel = e[3].split(":", 2)
-                if rel.endswith(".pickle") or "<tmp#" in rel:
-                    if op.startswith("open-w") or op == "os.open":
-                        open_w.setdefault(rel, set()).add(e[1])
-                        if len(open_w[rel]) > 1:
-                            self.agg.probes["two_writers_had_the_same_file_open"] += 1
-                    elif op == "close":
-                        open_w.get(rel, set()).discard(e[1])
-                    elif op == "open-r":
-                        loc = "home" if "cache" in rel else "companion"
-                        st = "being_written" if open_w.get(rel) else "quiescent"
-                        if open_w.get(rel):
-                            self.agg.probes["reader_opened_cache_while_writer_active"] += 1
-                        self.agg.states.add("lookup|%s|%s|n%d|ro%d" % (loc, st, len(plan), int(bool(self.readonly))))
+                is_cache = rel.endswith(".pickle") or "<tmp#" in rel or rel.endswith(".tmp")
+                if not is_cache:
+                    continue
+                loc = "home" if "cache" in rel.split(os.sep) else "companion"
+                which = "isa" if os.sep + "isa" + os.sep in os.sep + rel or rel.startswith("pkg/data/isa") or "/isa/" in rel else "model"
+                if "cache" in rel.split(os.sep):
+                    which = "isa" if os.path.basename(rel).startswith(("x86_", "aarch64_")) else "model"
+                pt = per_task.setdefault(e[1], set())
+                if op.startswith("open-w") or op == "os.open":
+                    open_w.setdefault(rel, set()).add(e[1])
+                    pt.add("w:%s:%s" % (loc, which))
+                    if len(open_w[rel]) > 1:
+                        self.agg.probes["two_writers_had_the_same_file_open"] += 1
+                    others = [t for r, ts in open_w.items() for t in ts if t != e[1]]
+                    if others:
+                        self.agg.probes["two_processes_writing_cache_files_concurrently"] += 1
+                elif op == "close":
+                    open_w.get(rel, set()).discard(e[1])
+                elif op in ("replace", "rename"):
+                    for r in list(open_w):
+                        open_w[r].discard(e[1])
+                    pt.add("published:%s:%s" % (loc, which))
+                elif op == "open-r":
+                    pt.add("r:%s:%s" % (loc, which))
+                    st = "being_written" if open_w.get(rel) else "quiescent"
+                    if open_w.get(rel):
+                        self.agg.probes["reader_opened_cache_file_while_writer_had_it_open"] += 1
+                    if any(ts - {e[1]} for ts in open_w.values()):
+                        self.agg.probes["cache_lookup_while_another_process_was_writing"] += 1
+                    self.agg.states.add("lookup|%s|%s|%s|n%d|ro%d" % (loc, which, st, len(plan), int(bool(self.readonly))))
+        for name, ops in per_task.items():
+            for which in ("model", "isa"):
+                wrote = [o for o in ops if o.startswith("w:") and o.endswith(which)]
+                read = [o for o in ops if o.startswith("r:") and o.endswith(which)]
+                if wrote:
+                    self.agg.probes["run_wrote_%s_cache_%s" % (which, wrote[0].split(":")[1])] += 1
+                elif read:
+                    self.agg.probes["run_served_from_%s_%s_cache" % (read[-1].split(":")[1], which)] += 1
+            self.agg.states.add("cacheuse|" + ",".join(sorted(ops)))
+        # processes that touched no cache file at all: cold run with nothing writable
+        for p in plan:
+            if p["name"] not in per_task:
+                self.agg.probes["run_without_any_cache_access(read-only everything)"] += 1
 
     def apply_edit(self, kind):
         if kind == "semantic":
@@ -726,10 +797,31 @@ def make_spec(rng, tier, arch, tiny, faults=True):
             "ops": gen_ops(rng, isa, len(KERNELS[isa]), tier, faults)}
 
 
+def template_job(job):
+    agg = batch.Agg()
+    isa = env.isa_of(job["arch"])
+    for rep in range(job["reps"]):
+        rs = derive_seed(job["seed"], PROP, "tpl", job["arch"], job["tiny"], rep)
+        rng = random.Random(rs)
+        T = template_histories(rng, len(KERNELS[isa]))
+        for name in job["names"]:
+            ops = T[name] + [{"op": "run_group", "procs": [{"kernel": rng.randrange(len(KERNELS[isa])), "options": []}], "tail": True}]
+            spec = {"property": PROP, "arch": job["arch"], "tiny": job["tiny"], "sticky": rng.choice([1, 4, 16]), "ops": ops,
+                    "template": name}
+            ch = Chooser(seed=derive_seed(rs, name))
+            ep = run_episode(spec, ch)
+            merge_episode(agg, ep, spec, ch, dict(job, tag="template:" + name), rep)
+            agg.notes["template_histories"] += 1
+            agg.states.add("template|" + name + "|" + job["arch"])
+    return agg.to_dict()
+
+
 def run_job(job):
     agg = batch.Agg()
     if job.get("kind") == "sweep":
         return sweep_job(job)
+    if job.get("kind") == "template":
+        return template_job(job)
     for i in range(job["first"], job["first"] + job["n"]):
         rs = derive_seed(job["seed"], PROP, job["arch"], job["tiny"], job.get("faults", True), i)
         spec = job.get("spec") or make_spec(random.Random(rs), job["tier"], job["arch"], job["tiny"], job.get("faults", True))
@@ -827,6 +919,14 @@ def build_jobs(tier, seed):
         arch = archs[(first // perf) % len(archs)]
         jobs.append({"arch": arch, "tiny": False, "first": first, "n": perf, "seed": seed, "tier": tier, "faults": True,
                      "tag": "history-shipped-model"})
+    # the cache histories named by the quantifier, spelled out
+    names = sorted(template_histories(random.Random(0), 4))
+    reps = 2 if tier == "quick" else 40
+    for arch in archs:
+        for tiny in ((True,) if tier == "quick" else (True, False)):
+            for i in range(0, len(names), 2):
+                jobs.append({"kind": "template", "arch": arch, "tiny": tiny, "names": names[i:i + 2], "reps": reps,
+                             "seed": seed, "tier": tier})
     # systematic sweep over the crash point of the cache write
     sweep_archs = [("n1", True), ("zen1", True), ("tx2", False)] if tier == "quick" else \
         [(a, t) for a in archs for t in (True, False)]
